@@ -7,6 +7,7 @@ import (
 	"go/parser"
 	"go/token"
 	"os"
+	"path/filepath"
 	"regexp"
 	"strings"
 )
@@ -271,6 +272,9 @@ func destructure(path string, fd *ast.FuncDecl) {
 			if u, ok := e.(*ast.UnaryExpr); ok && u.Op == token.AND {
 				e = u.X
 			}
+			if c, ok := e.(*ast.CallExpr); ok && src(c.Fun) == "new" && len(c.Args) == 1 {
+				e = &ast.CompositeLit{Type: c.Args[0]} // new(T) is &T{}
+			}
 			cl, ok := e.(*ast.CompositeLit)
 			if !ok || cl.Type == nil {
 				continue
@@ -300,10 +304,10 @@ func destructure(path string, fd *ast.FuncDecl) {
 }
 
 func dissolve(path string, fd *ast.FuncDecl, blk *ast.BlockStmt, at int, v, tname string, targs []ast.Expr, cl *ast.CompositeLit) []ast.Stmt {
-	f := parse(path) // fresh copy: method bodies are renamed in place
+	pkgDecls := packageDecls(path) // fresh copies (the file itself, then its siblings): method bodies are renamed in place
 	var sd *ast.StructType
 	tparams := []string{}
-	for _, d := range f.Decls {
+	for _, d := range pkgDecls {
 		gd, ok := d.(*ast.GenDecl)
 		if !ok || gd.Tok != token.TYPE {
 			continue
@@ -365,7 +369,7 @@ func dissolve(path string, fd *ast.FuncDecl, blk *ast.BlockStmt, at int, v, tnam
 	}
 	methods := map[string]*meth{}
 	morder := []string{}
-	for _, d := range f.Decls {
+	for _, d := range pkgDecls {
 		md, ok := d.(*ast.FuncDecl)
 		if !ok || md.Recv == nil || len(md.Recv.List) != 1 || md.Body == nil {
 			continue
@@ -506,6 +510,31 @@ func dissolve(path string, fd *ast.FuncDecl, blk *ast.BlockStmt, at int, v, tnam
 			outer(st)
 		}
 	}
+	// a field or method whose name means something else in the scope (or is a builtin) gets a fresh name
+	for _, b := range []string{"close", "len", "cap", "make", "new", "append", "copy", "delete", "panic", "recover", "print", "println", "min", "max", "clear"} {
+		used[b] = true
+	}
+	aliases := map[string]string{}
+	alias := func(name string) string {
+		if a, ok := aliases[name]; ok {
+			return a
+		}
+		a := name
+		sameNameField := false
+		if v0, has := vals[name]; has {
+			if i, ok := v0.(*ast.Ident); ok && i.Name == name {
+				sameNameField = true // `ctx: ctx`: the local of that name IS the field
+			}
+		}
+		if !sameNameField {
+			for used[a] {
+				a += "_"
+			}
+		}
+		used[a] = true
+		aliases[name] = a
+		return a
+	}
 	// rewrite `r.f` -> f, `r.m` -> m; any other mention of r gives up
 	bad := false
 	useCount := map[string]int{}
@@ -516,11 +545,11 @@ func dissolve(path string, fd *ast.FuncDecl, blk *ast.BlockStmt, at int, v, tnam
 				if s, ok := e.(*ast.SelectorExpr); ok {
 					if i, ok := s.X.(*ast.Ident); ok && i.Name == r {
 						if isField[s.Sel.Name] {
-							return ast.NewIdent(s.Sel.Name)
+							return ast.NewIdent(alias(s.Sel.Name))
 						}
 						if methods[s.Sel.Name] != nil {
 							useCount[s.Sel.Name]++
-							return ast.NewIdent(s.Sel.Name)
+							return ast.NewIdent(alias(s.Sel.Name))
 						}
 						bad = true
 					}
@@ -655,23 +684,27 @@ func dissolve(path string, fd *ast.FuncDecl, blk *ast.BlockStmt, at int, v, tnam
 				continue // `ctx: ctx`: the local of that name is the field
 			}
 		}
-		if used[fn] {
-			return nil // the name means something else in the function
-		}
 		if has {
-			rest = append(rest, &ast.AssignStmt{Lhs: []ast.Expr{ast.NewIdent(fn)}, Tok: token.DEFINE, Rhs: []ast.Expr{val}})
+			rest = append(rest, &ast.AssignStmt{Lhs: []ast.Expr{ast.NewIdent(alias(fn))}, Tok: token.DEFINE, Rhs: []ast.Expr{val}})
 		} else {
-			rest = append(rest, &ast.DeclStmt{Decl: &ast.GenDecl{Tok: token.VAR, Specs: []ast.Spec{&ast.ValueSpec{Names: []*ast.Ident{ast.NewIdent(fn)}, Type: ftype[fn]}}}})
+			rest = append(rest, &ast.DeclStmt{Decl: &ast.GenDecl{Tok: token.VAR, Specs: []ast.Spec{&ast.ValueSpec{Names: []*ast.Ident{ast.NewIdent(alias(fn))}, Type: ftype[fn]}}}})
 		}
 	}
 	// methods: a closure each, except those started exactly once as `go m()` at the top level of the function
 	inPlace := map[string]bool{}
 	for _, s := range tail {
 		if g, ok := s.(*ast.GoStmt); ok && len(g.Call.Args) == 0 {
-			if i, ok := g.Call.Fun.(*ast.Ident); ok && methods[i.Name] != nil && useCount[i.Name] == 1 &&
-				(methods[i.Name].fd.Type.Params == nil || len(methods[i.Name].fd.Type.Params.List) == 0) {
-				inPlace[i.Name] = true
-				g.Call.Fun = &ast.FuncLit{Type: &ast.FuncType{Params: &ast.FieldList{}}, Body: methods[i.Name].fd.Body}
+			if i, ok := g.Call.Fun.(*ast.Ident); ok {
+				orig := ""
+				for mn := range methods {
+					if aliases[mn] == i.Name {
+						orig = mn
+					}
+				}
+				if orig != "" && useCount[orig] == 1 && (methods[orig].fd.Type.Params == nil || len(methods[orig].fd.Type.Params.List) == 0) {
+					inPlace[orig] = true
+					g.Call.Fun = &ast.FuncLit{Type: &ast.FuncType{Params: &ast.FieldList{}}, Body: methods[orig].fd.Body}
+				}
 			}
 		}
 	}
@@ -679,11 +712,8 @@ func dissolve(path string, fd *ast.FuncDecl, blk *ast.BlockStmt, at int, v, tnam
 		if useCount[mn] == 0 || inPlace[mn] {
 			continue
 		}
-		if used[mn] {
-			return nil
-		}
 		m := methods[mn]
-		rest = append(rest, &ast.AssignStmt{Lhs: []ast.Expr{ast.NewIdent(mn)}, Tok: token.DEFINE,
+		rest = append(rest, &ast.AssignStmt{Lhs: []ast.Expr{ast.NewIdent(alias(mn))}, Tok: token.DEFINE,
 			Rhs: []ast.Expr{&ast.FuncLit{Type: &ast.FuncType{Params: m.fd.Type.Params, Results: m.fd.Type.Results}, Body: m.fd.Body}}})
 	}
 	return append(rest, tail...)
@@ -721,11 +751,15 @@ func prepass(path string, fd *ast.FuncDecl) *ast.FuncDecl {
 		destructure(path, fd)
 		expandHelpers(path, fd)
 		inlineStmtCalls(path, fd)
+		hoistSharedMake(fd)
 		normaliseCondLoops(fd)
 		inlineBoolGuards(path, fd)
 		normaliseCondLoops(fd)
 		dropUnusedClosures(fd)
 		normaliseSmall(fd)
+		jumpingIfToElse(fd)
+		dropTailContinues(fd)
+		goLiteralParams(fd)
 		propagateLenCap(fd)
 		normaliseIndexLoops(fd)
 		inlineGuardClosures(fd)
@@ -1471,20 +1505,46 @@ func propagateLenCap(fd *ast.FuncDecl) {
 			continue
 		}
 		n, ok := as.Lhs[0].(*ast.Ident)
-		call, ok2 := as.Rhs[0].(*ast.CallExpr)
-		if !ok || !ok2 || len(call.Args) != 1 {
+		if !ok || n.Name == "_" {
 			continue
 		}
-		f, ok := call.Fun.(*ast.Ident)
-		x, ok2 := call.Args[0].(*ast.Ident)
-		if !ok || !ok2 || (f.Name != "len" && f.Name != "cap") || !params[x.Name] {
-			continue
+		var f, x *ast.Ident
+		var xdef *ast.AssignStmt // the one statement that defines a copied local
+		if cp, isCopy := as.Rhs[0].(*ast.Ident); isCopy && params[cp.Name] {
+			// a plain copy of a parameter that is never assigned: the parameter itself
+			f, x = nil, cp
+		} else if isCopy && cp.Name != "nil" && cp.Name != "true" && cp.Name != "false" {
+			// a plain copy of a local that is defined once, earlier at the top level, and never assigned
+			for _, st := range fd.Body.List[:k] {
+				if d, ok := st.(*ast.AssignStmt); ok && d.Tok == token.DEFINE {
+					for _, l := range d.Lhs {
+						if i, ok := l.(*ast.Ident); ok && i.Name == cp.Name {
+							xdef = d
+						}
+					}
+				}
+			}
+			if xdef == nil {
+				continue
+			}
+			f, x = nil, cp
+		} else {
+			call, ok2 := as.Rhs[0].(*ast.CallExpr)
+			if !ok2 || len(call.Args) != 1 {
+				continue
+			}
+			var okf, okx bool
+			f, okf = call.Fun.(*ast.Ident)
+			x, okx = call.Args[0].(*ast.Ident)
+			if !okf || !okx || (f.Name != "len" && f.Name != "cap") || !params[x.Name] {
+				continue
+			}
 		}
 		bad := false
 		ast.Inspect(fd.Body, func(m ast.Node) bool {
 			switch y := m.(type) {
 			case *ast.AssignStmt:
-				if y != as {
+				if y != as && y != xdef {
 					for _, l := range y.Lhs {
 						if i, ok := l.(*ast.Ident); ok && (i.Name == n.Name || i.Name == x.Name) {
 							bad = true
@@ -1514,6 +1574,9 @@ func propagateLenCap(fd *ast.FuncDecl) {
 		rest := &ast.BlockStmt{List: fd.Body.List[k+1:]}
 		mapExprs(rest, func(e ast.Expr) ast.Expr {
 			if i, ok := e.(*ast.Ident); ok && i.Name == n.Name {
+				if f == nil {
+					return ast.NewIdent(x.Name)
+				}
 				return &ast.CallExpr{Fun: ast.NewIdent(f.Name), Args: []ast.Expr{ast.NewIdent(x.Name)}}
 			}
 			return e
@@ -1654,21 +1717,66 @@ func inlineStmtCalls(path string, fd *ast.FuncDecl) {
 			out := []ast.Stmt{}
 			for k, st := range list {
 				var call *ast.CallExpr
-				kind, lhs := "", ""
+				kind := ""
+				lhs := []string{}
 				switch y := st.(type) {
 				case *ast.ExprStmt:
 					call, _ = y.X.(*ast.CallExpr)
 					kind = "stmt"
 				case *ast.AssignStmt:
-					if y.Tok == token.DEFINE && len(y.Lhs) == 1 && len(y.Rhs) == 1 {
-						if i, ok := y.Lhs[0].(*ast.Ident); ok {
-							call, _ = y.Rhs[0].(*ast.CallExpr)
-							kind, lhs = "define", i.Name
+					if y.Tok == token.DEFINE && len(y.Rhs) == 1 && len(y.Lhs) >= 1 {
+						okIds := true
+						for _, l := range y.Lhs {
+							i, ok := l.(*ast.Ident)
+							if !ok {
+								okIds = false
+								break
+							}
+							lhs = append(lhs, i.Name)
 						}
+						if okIds {
+							call, _ = y.Rhs[0].(*ast.CallExpr)
+							kind = "define"
+						}
+					}
+				case *ast.ReturnStmt:
+					// `return h(a…)` as the last statement of the function itself
+					if len(y.Results) == 1 && lastOfFunc && k == len(list)-1 {
+						call, _ = y.Results[0].(*ast.CallExpr)
+						kind = "return"
 					}
 				case *ast.GoStmt:
 					call = y.Call
 					kind = "go"
+				case *ast.DeferStmt:
+					// `defer h()` (no arguments: nothing is evaluated at the defer statement itself)
+					if len(y.Call.Args) == 0 {
+						call = y.Call
+						kind = "defer"
+					}
+				case *ast.SendStmt:
+					// `ch <- h(a…)` is `v := h(a…); ch <- v` (ch is a plain name: nothing is evaluated out of order)
+					if c, ok := y.Value.(*ast.CallExpr); ok {
+						if _, plain := y.Chan.(*ast.Ident); plain {
+							used := map[string]bool{}
+							ast.Inspect(fd, func(n ast.Node) bool {
+								if i, ok := n.(*ast.Ident); ok {
+									used[strings.TrimPrefix(i.Name, "\x00")] = true
+								}
+								return true
+							})
+							v := "v"
+							for used[v] {
+								v += "_"
+							}
+							if b := inlineBody(path, fd, c, "define", []string{v}, false, callerTP); b != nil {
+								changed = true
+								out = append(out, b...)
+								out = append(out, &ast.SendStmt{Chan: y.Chan, Value: ast.NewIdent(v)})
+								continue
+							}
+						}
+					}
 				}
 				var body []ast.Stmt
 				if call != nil {
@@ -1682,6 +1790,14 @@ func inlineStmtCalls(path string, fd *ast.FuncDecl) {
 				changed = true
 				if kind == "go" {
 					out = append(out, &ast.GoStmt{Call: &ast.CallExpr{Fun: &ast.FuncLit{Type: &ast.FuncType{Params: &ast.FieldList{}}, Body: &ast.BlockStmt{List: body}}}})
+				} else if kind == "defer" {
+					if es, ok := body[0].(*ast.ExprStmt); ok && len(body) == 1 {
+						if c, ok := es.X.(*ast.CallExpr); ok && len(c.Args) == 0 {
+							out = append(out, &ast.DeferStmt{Call: c})
+							continue
+						}
+					}
+					out = append(out, &ast.DeferStmt{Call: &ast.CallExpr{Fun: &ast.FuncLit{Type: &ast.FuncType{Params: &ast.FieldList{}}, Body: &ast.BlockStmt{List: body}}}})
 				} else {
 					out = append(out, body...)
 				}
@@ -1702,13 +1818,25 @@ func inlineStmtCalls(path string, fd *ast.FuncDecl) {
 	}
 }
 
-func inlineBody(path string, caller *ast.FuncDecl, call *ast.CallExpr, kind, lhs string, isLast bool, callerTP map[string]bool) []ast.Stmt {
-	h, ok := call.Fun.(*ast.Ident)
-	if !ok || call.Ellipsis != token.NoPos {
+func inlineBody(path string, caller *ast.FuncDecl, call *ast.CallExpr, kind string, lhs []string, isLast bool, callerTP map[string]bool) []ast.Stmt {
+	var h *ast.Ident
+	var targs []ast.Expr
+	switch f := call.Fun.(type) {
+	case *ast.Ident:
+		h = f
+	case *ast.IndexExpr: // h[T](…)
+		h, _ = f.X.(*ast.Ident)
+		targs = []ast.Expr{f.Index}
+	case *ast.IndexListExpr:
+		h, _ = f.X.(*ast.Ident)
+		targs = f.Indices
+	}
+	if h == nil || call.Ellipsis != token.NoPos {
 		return nil
 	}
 	args := []string{}
 	litArgs := map[int]*ast.FuncLit{}
+	litHasRet := map[*ast.FuncLit]bool{}
 	exprArgs := map[int]ast.Expr{}
 	for k, a := range call.Args {
 		if u, ok := a.(*ast.UnaryExpr); ok && u.Op == token.AND {
@@ -1728,7 +1856,7 @@ func inlineBody(path string, caller *ast.FuncDecl, call *ast.CallExpr, kind, lhs
 				return true
 			})
 			if hasRet {
-				return nil
+				litHasRet[l] = true // its call must then be the last statement of a function body in the callee
 			}
 			litArgs[k] = l
 			args = append(args, "")
@@ -1766,10 +1894,22 @@ func inlineBody(path string, caller *ast.FuncDecl, call *ast.CallExpr, kind, lhs
 		cands = append(cands, &ast.FuncDecl{Name: ast.NewIdent(h.Name), Type: cp.Type, Body: cp.Body})
 		isLocal = true
 	} else {
-		f := parse(path)
-		for _, d := range f.Decls {
-			if hd, ok := d.(*ast.FuncDecl); ok {
-				cands = append(cands, hd)
+		// the file itself first, then the other non-test files of its package directory
+		files := []string{path}
+		if ents, err := os.ReadDir(filepath.Dir(path)); err == nil {
+			for _, e := range ents {
+				n := e.Name()
+				if strings.HasSuffix(n, ".go") && !strings.HasSuffix(n, "_test.go") && filepath.Join(filepath.Dir(path), n) != path {
+					files = append(files, filepath.Join(filepath.Dir(path), n))
+				}
+			}
+		}
+		for _, fp := range files {
+			f := parse(fp)
+			for _, d := range f.Decls {
+				if hd, ok := d.(*ast.FuncDecl); ok {
+					cands = append(cands, hd)
+				}
 			}
 		}
 	}
@@ -1777,10 +1917,95 @@ func inlineBody(path string, caller *ast.FuncDecl, call *ast.CallExpr, kind, lhs
 		if hd.Recv != nil || hd.Name.Name != h.Name || (hd.Name.IsExported() && !isLocal) || hd.Body == nil || (hd.Name.Name == caller.Name.Name && !isLocal) {
 			continue
 		}
-		for _, t := range typeParams(hd) {
-			if !callerTP[t] {
+		// type parameters of the callee: instantiated explicitly at identifiers (renamed), or left to inference, which is
+		// only followed when they carry the caller's own type parameter names
+		tren := map[string]string{}
+		if htp := typeParams(hd); targs != nil {
+			if len(targs) != len(htp) {
 				return nil
 			}
+			for q, t := range htp {
+				a, ok := targs[q].(*ast.Ident)
+				if !ok {
+					return nil
+				}
+				if a.Name != t {
+					tren[t] = a.Name
+				}
+			}
+		} else {
+			// inference from function-literal arguments: the literal's parameter types against the callee's
+			isTP := map[string]bool{}
+			for _, t := range htp {
+				isTP[t] = true
+			}
+			var unify func(a, b ast.Expr)
+			unify = func(a, b ast.Expr) { // a: callee side, b: caller side
+				switch x := a.(type) {
+				case *ast.Ident:
+					if isTP[x.Name] {
+						if bi, ok := b.(*ast.Ident); ok && tren[x.Name] == "" {
+							tren[x.Name] = bi.Name
+						}
+					}
+				case *ast.ChanType:
+					if y, ok := b.(*ast.ChanType); ok {
+						unify(x.Value, y.Value)
+					}
+				case *ast.StarExpr:
+					if y, ok := b.(*ast.StarExpr); ok {
+						unify(x.X, y.X)
+					}
+				case *ast.ArrayType:
+					if y, ok := b.(*ast.ArrayType); ok {
+						unify(x.Elt, y.Elt)
+					}
+				}
+			}
+			pi := 0
+			for _, p := range hd.Type.Params.List {
+				for range p.Names {
+					if l := litArgs[pi]; l != nil {
+						if ft, ok := p.Type.(*ast.FuncType); ok && ft.Params != nil && l.Type.Params != nil && len(ft.Params.List) == len(l.Type.Params.List) {
+							for q := range ft.Params.List {
+								unify(ft.Params.List[q].Type, l.Type.Params.List[q].Type)
+							}
+						}
+					}
+					pi++
+				}
+			}
+			for k2, v := range tren {
+				if k2 == v {
+					delete(tren, k2)
+				}
+			}
+			for _, t := range htp {
+				if callerTP[t] || tren[t] != "" {
+					continue
+				}
+				// inferred, under another name: harmless when the callee's BODY never mentions it
+				mentioned := false
+				ast.Inspect(hd.Body, func(n ast.Node) bool {
+					if i, ok := n.(*ast.Ident); ok && i.Name == t {
+						mentioned = true
+					}
+					return true
+				})
+				if mentioned {
+					return nil
+				}
+			}
+		}
+		if len(tren) > 0 {
+			ast.Inspect(hd.Body, func(n ast.Node) bool {
+				if i, ok := n.(*ast.Ident); ok {
+					if to, ok := tren[i.Name]; ok {
+						i.Name = to
+					}
+				}
+				return true
+			})
 		}
 		nres := 0
 		if hd.Type.Results != nil {
@@ -1791,8 +2016,19 @@ func inlineBody(path string, caller *ast.FuncDecl, call *ast.CallExpr, kind, lhs
 				nres++
 			}
 		}
-		if (kind == "define") != (nres == 1) || nres > 1 {
-			return nil
+		switch kind {
+		case "define":
+			if nres != len(lhs) || nres == 0 {
+				return nil
+			}
+		case "return":
+			if nres == 0 {
+				return nil
+			}
+		default:
+			if nres != 0 {
+				return nil
+			}
 		}
 		params := []string{}
 		for _, p := range hd.Type.Params.List {
@@ -1810,6 +2046,8 @@ func inlineBody(path string, caller *ast.FuncDecl, call *ast.CallExpr, kind, lhs
 		isParam := map[string]bool{}
 		lits := map[string]*ast.FuncLit{}
 		exprSub := map[string]ast.Expr{}
+		bindArgs := []string{}
+		bindVals := []ast.Expr{}
 		for k, pn := range params {
 			isParam[pn] = true
 			if l := litArgs[k]; l != nil {
@@ -1833,7 +2071,10 @@ func inlineBody(path string, caller *ast.FuncDecl, call *ast.CallExpr, kind, lhs
 					})
 				}
 				if cnt != 1 || first != 1 {
-					return nil
+					// evaluated once, before the call: a local named after the parameter holds it
+					bindArgs = append(bindArgs, pn)
+					bindVals = append(bindVals, e)
+					continue
 				}
 				exprSub[pn] = e
 				continue
@@ -1861,14 +2102,15 @@ func inlineBody(path string, caller *ast.FuncDecl, call *ast.CallExpr, kind, lhs
 						}
 					}
 				}
-				var spl func(list []ast.Stmt) []ast.Stmt
-				spl = func(list []ast.Stmt) []ast.Stmt {
+				var spl func(list []ast.Stmt, lastOfFunc bool) []ast.Stmt
+				spl = func(list []ast.Stmt, lastOfFunc bool) []ast.Stmt {
 					out := []ast.Stmt{}
-					for _, st := range list {
+					for si, st := range list {
 						if es, ok := st.(*ast.ExprStmt); ok {
 							if c, ok := es.X.(*ast.CallExpr); ok {
 								if i, ok := c.Fun.(*ast.Ident); ok && i.Name == pn && len(c.Args) == len(lp) {
 									r2 := map[string]string{}
+									mapped := map[string]bool{} // names that already are the caller's
 									good := true
 									for q, a := range c.Args {
 										ai, ok := a.(*ast.Ident)
@@ -1880,9 +2122,13 @@ func inlineBody(path string, caller *ast.FuncDecl, call *ast.CallExpr, kind, lhs
 											to := ai.Name
 											if t2, isP := ren[to]; isP {
 												to = t2 // the callee hands one of its own parameters on
+												mapped[to] = true
 											}
 											r2[lp[q]] = to
 										}
+									}
+									if litHasRet[l] && !(lastOfFunc && si == len(list)-1) {
+										good = false
 									}
 									if good && calls == 0 {
 										calls++
@@ -1891,7 +2137,13 @@ func inlineBody(path string, caller *ast.FuncDecl, call *ast.CallExpr, kind, lhs
 										ast.Inspect(l.Body, func(n ast.Node) bool {
 											if i, ok := n.(*ast.Ident); ok && !strings.HasPrefix(i.Name, "\x00") {
 												if to, ok := r2[i.Name]; ok {
-													i.Name = "\x00" + to
+													// a parameter of the literal: the callee's variable handed to it, renamed with
+													// the callee's other variables (unless it already is the caller's name)
+													if mapped[to] {
+														i.Name = "\x00" + to
+													} else {
+														i.Name = to
+													}
 												} else {
 													i.Name = "\x00" + i.Name
 												}
@@ -1907,15 +2159,16 @@ func inlineBody(path string, caller *ast.FuncDecl, call *ast.CallExpr, kind, lhs
 						ast.Inspect(st, func(m ast.Node) bool {
 							switch y := m.(type) {
 							case *ast.BlockStmt:
-								y.List = spl(y.List)
+								y.List = spl(y.List, false)
 								return false
 							case *ast.CaseClause:
-								y.Body = spl(y.Body)
+								y.Body = spl(y.Body, false)
 								return false
 							case *ast.CommClause:
-								y.Body = spl(y.Body)
+								y.Body = spl(y.Body, false)
 								return false
 							case *ast.FuncLit:
+								y.Body.List = spl(y.Body.List, true)
 								return false
 							}
 							return true
@@ -1924,7 +2177,7 @@ func inlineBody(path string, caller *ast.FuncDecl, call *ast.CallExpr, kind, lhs
 					}
 					return out
 				}
-				hd.Body.List = spl(hd.Body.List)
+				hd.Body.List = spl(hd.Body.List, false)
 				if calls != 1 || mentions != 1 {
 					return nil
 				}
@@ -1942,15 +2195,15 @@ func inlineBody(path string, caller *ast.FuncDecl, call *ast.CallExpr, kind, lhs
 			}
 			return true
 		})
-		var resExpr ast.Expr
-		if kind == "define" {
+		var resExprs []ast.Expr
+		if kind == "define" || kind == "return" {
 			r, ok := list[len(list)-1].(*ast.ReturnStmt)
-			if !ok || nret != 1 || len(r.Results) != 1 {
+			if !ok || nret != 1 || len(r.Results) != nres {
 				return nil
 			}
-			resExpr = r.Results[0]
+			resExprs = r.Results
 			list = list[:len(list)-1]
-		} else if nret > 0 && !(isLast || kind == "go") {
+		} else if nret > 0 && !(isLast || kind == "go" || kind == "defer") {
 			// a trailing bare return is harmless anywhere
 			if r, ok := list[len(list)-1].(*ast.ReturnStmt); ok && nret == 1 && len(r.Results) == 0 {
 				list = list[:len(list)-1]
@@ -1993,10 +2246,36 @@ func inlineBody(path string, caller *ast.FuncDecl, call *ast.CallExpr, kind, lhs
 				return true
 			})
 		}
-		resLocal := ""
-		if i, ok := resExpr.(*ast.Ident); ok && !isParam[i.Name] {
-			resLocal = i.Name
+		// results that are locals of the callee take the caller's names (define) and need no assignment
+		resLocals := map[string]string{}
+		if kind == "define" {
+			ownLocals := map[string]bool{}
+			ast.Inspect(hd.Body, func(n ast.Node) bool {
+				switch y := n.(type) {
+				case *ast.FuncLit:
+					return false
+				case *ast.AssignStmt:
+					if y.Tok == token.DEFINE {
+						for _, l := range y.Lhs {
+							if i, ok := l.(*ast.Ident); ok {
+								ownLocals[i.Name] = true
+							}
+						}
+					}
+				case *ast.ValueSpec:
+					for _, i := range y.Names {
+						ownLocals[i.Name] = true
+					}
+				}
+				return true
+			})
+			for q, e := range resExprs {
+				if i, ok := e.(*ast.Ident); ok && !isParam[i.Name] && ownLocals[i.Name] && resLocals[i.Name] == "" {
+					resLocals[i.Name] = lhs[q]
+				}
+			}
 		}
+		clash := map[string]bool{} // locals of the callee that the caller names too: renamed
 		bad := false
 		ast.Inspect(hd.Body, func(n ast.Node) bool {
 			switch y := n.(type) {
@@ -2006,21 +2285,25 @@ func inlineBody(path string, caller *ast.FuncDecl, call *ast.CallExpr, kind, lhs
 						if isParam[i.Name] {
 							bad = true
 						}
-						if y.Tok == token.DEFINE && callerNames[i.Name] && i.Name != resLocal {
-							bad = true
+						if y.Tok == token.DEFINE && callerNames[i.Name] && resLocals[i.Name] == "" {
+							clash[i.Name] = true
 						}
 					}
 				}
 			case *ast.ValueSpec:
 				for _, i := range y.Names {
-					if callerNames[i.Name] && i.Name != resLocal {
-						bad = true
+					if callerNames[i.Name] && resLocals[i.Name] == "" {
+						clash[i.Name] = true
 					}
 				}
 			case *ast.RangeStmt:
 				for _, kv := range []ast.Expr{y.Key, y.Value} {
-					if i, ok := kv.(*ast.Ident); ok && i.Name != "_" && (isParam[i.Name] || callerNames[i.Name]) && y.Tok == token.DEFINE {
-						bad = true
+					if i, ok := kv.(*ast.Ident); ok && i.Name != "_" && y.Tok == token.DEFINE {
+						if isParam[i.Name] {
+							bad = true
+						} else if callerNames[i.Name] {
+							clash[i.Name] = true
+						}
 					}
 				}
 			case *ast.IncDecStmt:
@@ -2037,11 +2320,42 @@ func inlineBody(path string, caller *ast.FuncDecl, call *ast.CallExpr, kind, lhs
 		if bad {
 			return nil
 		}
-		if resLocal != "" {
-			if resLocal != lhs && callerNames[lhs] && lhs != "" {
-				// the caller's name for the result is taken by the caller already only as this very definition: fine
+		for c := range clash {
+			if isParam[c] || lits[c] != nil {
+				return nil
 			}
-			ren[resLocal] = lhs
+			name := c + "_"
+			for callerNames[name] {
+				name += "_"
+			}
+			// the callee must not mention the name it is renamed to
+			mentioned := false
+			ast.Inspect(hd.Body, func(n ast.Node) bool {
+				if i, ok := n.(*ast.Ident); ok && i.Name == name {
+					mentioned = true
+				}
+				return true
+			})
+			if mentioned {
+				return nil
+			}
+			ren[c] = name
+			callerNames[name] = true
+		}
+		prelude := []ast.Stmt{}
+		for q, pn := range bindArgs {
+			name := pn
+			for callerNames[name] || name == "cap" || name == "len" {
+				name += "_"
+			}
+			if name != pn {
+				ren[pn] = name
+			}
+			callerNames[name] = true
+			prelude = append(prelude, &ast.AssignStmt{Lhs: []ast.Expr{ast.NewIdent(name)}, Tok: token.DEFINE, Rhs: []ast.Expr{bindVals[q]}})
+		}
+		for from, to := range resLocals {
+			ren[from] = to
 		}
 		holder := &ast.BlockStmt{List: list}
 		if len(exprSub) > 0 {
@@ -2061,6 +2375,10 @@ func inlineBody(path string, caller *ast.FuncDecl, call *ast.CallExpr, kind, lhs
 				return e
 			})
 		}
+		protectNonVars(holder)
+		for _, e := range resExprs {
+			protectNonVars(e)
+		}
 		ast.Inspect(holder, func(n ast.Node) bool {
 			if i, ok := n.(*ast.Ident); ok {
 				if strings.HasPrefix(i.Name, "\x00") {
@@ -2071,17 +2389,34 @@ func inlineBody(path string, caller *ast.FuncDecl, call *ast.CallExpr, kind, lhs
 			}
 			return true
 		})
-		out := append([]ast.Stmt{}, holder.List...)
-		if kind == "define" && resLocal == "" {
-			ast.Inspect(resExpr, func(n ast.Node) bool {
+		out := append([]ast.Stmt{}, prelude...)
+		out = append(out, holder.List...)
+		renameIn := func(e ast.Expr) {
+			ast.Inspect(e, func(n ast.Node) bool {
 				if i, ok := n.(*ast.Ident); ok {
-					if to, ok := ren[i.Name]; ok {
+					if strings.HasPrefix(i.Name, "\x00") {
+						i.Name = i.Name[1:]
+					} else if to, ok := ren[i.Name]; ok {
 						i.Name = to
 					}
 				}
 				return true
 			})
-			out = append(out, &ast.AssignStmt{Lhs: []ast.Expr{ast.NewIdent(lhs)}, Tok: token.DEFINE, Rhs: []ast.Expr{resExpr}})
+		}
+		if kind == "define" {
+			for q, e := range resExprs {
+				if i, ok := e.(*ast.Ident); ok && resLocals[i.Name] == lhs[q] {
+					continue
+				}
+				renameIn(e)
+				out = append(out, &ast.AssignStmt{Lhs: []ast.Expr{ast.NewIdent(lhs[q])}, Tok: token.DEFINE, Rhs: []ast.Expr{e}})
+			}
+		}
+		if kind == "return" {
+			for _, e := range resExprs {
+				renameIn(e)
+			}
+			out = append(out, &ast.ReturnStmt{Results: resExprs})
 		}
 		if len(out) == 0 {
 			out = append(out, &ast.EmptyStmt{})
@@ -2139,6 +2474,19 @@ func normaliseSmall(fd *ast.FuncDecl) {
 			}
 			out = append(out, st)
 		}
+		// `switch init; { cases }` (no tag) is `init; switch { cases }`: the variables of init are only used by the cases
+		out2 := []ast.Stmt{}
+		for _, st := range out {
+			if sw, ok := st.(*ast.SwitchStmt); ok && sw.Init != nil && sw.Tag == nil {
+				out2 = append(out2, sw.Init)
+				sw.Init = nil
+			}
+			if is, ok := st.(*ast.IfStmt); ok && is.Init != nil {
+				_ = is // an `if` with init keeps it: the translators read that form directly
+			}
+			out2 = append(out2, st)
+		}
+		out = out2
 		b.List = out
 		// literal locals
 		for k := 0; k < len(b.List); k++ {
@@ -2664,4 +3012,672 @@ func normaliseCondLoops(fd *ast.FuncDecl) {
 		}
 		return true
 	})
+}
+
+// `continue` in tail position of a loop body does nothing: as the body's last statement, or as the last statement of a
+// branch of an if/else, select or tagless switch that is itself in tail position.
+func dropTailContinues(fd *ast.FuncDecl) {
+	var tail func(list []ast.Stmt) []ast.Stmt
+	tail = func(list []ast.Stmt) []ast.Stmt {
+		if len(list) == 0 {
+			return list
+		}
+		switch y := list[len(list)-1].(type) {
+		case *ast.BranchStmt:
+			if y.Tok == token.CONTINUE && y.Label == nil {
+				return tail(list[:len(list)-1])
+			}
+		case *ast.IfStmt:
+			y.Body.List = tail(y.Body.List)
+			for e := y.Else; e != nil; {
+				switch z := e.(type) {
+				case *ast.BlockStmt:
+					z.List = tail(z.List)
+					e = nil
+				case *ast.IfStmt:
+					z.Body.List = tail(z.Body.List)
+					e = z.Else
+				default:
+					e = nil
+				}
+			}
+		case *ast.SelectStmt:
+			for _, cl := range y.Body.List {
+				cc := cl.(*ast.CommClause)
+				cc.Body = tail(cc.Body)
+			}
+		case *ast.SwitchStmt:
+			if y.Tag == nil {
+				for _, cl := range y.Body.List {
+					cc := cl.(*ast.CaseClause)
+					cc.Body = tail(cc.Body)
+				}
+			}
+		}
+		return list
+	}
+	ast.Inspect(fd, func(n ast.Node) bool {
+		switch y := n.(type) {
+		case *ast.ForStmt:
+			y.Body.List = tail(y.Body.List)
+		case *ast.RangeStmt:
+			y.Body.List = tail(y.Body.List)
+		}
+		return true
+	})
+}
+
+// `go func(p1 T1, …) { B }(a1, …)` with identifier arguments that are never assigned after the statement is
+// `go func() { B[p := a] }()`: the goroutine's copies equal the variables for good.
+func goLiteralParams(fd *ast.FuncDecl) {
+	assigned := map[string]int{}
+	ast.Inspect(fd.Body, func(n ast.Node) bool {
+		switch y := n.(type) {
+		case *ast.AssignStmt:
+			for _, l := range y.Lhs {
+				if i, ok := l.(*ast.Ident); ok {
+					assigned[i.Name]++
+				}
+			}
+		case *ast.IncDecStmt:
+			if i, ok := y.X.(*ast.Ident); ok {
+				assigned[i.Name] += 2
+			}
+		case *ast.RangeStmt:
+			for _, kv := range []ast.Expr{y.Key, y.Value} {
+				if i, ok := kv.(*ast.Ident); ok {
+					assigned[i.Name] += 2 // a loop variable: one per iteration, do not touch
+				}
+			}
+		}
+		return true
+	})
+	ast.Inspect(fd.Body, func(n ast.Node) bool {
+		g, ok := n.(*ast.GoStmt)
+		if !ok {
+			return true
+		}
+		lit, ok := g.Call.Fun.(*ast.FuncLit)
+		if !ok || lit.Type.Params == nil || len(g.Call.Args) == 0 {
+			return true
+		}
+		ps := []string{}
+		for _, f := range lit.Type.Params.List {
+			for _, nm := range f.Names {
+				ps = append(ps, nm.Name)
+			}
+		}
+		if len(ps) != len(g.Call.Args) {
+			return true
+		}
+		ren := map[string]string{}
+		for k, a := range g.Call.Args {
+			i, ok := a.(*ast.Ident)
+			if !ok || assigned[i.Name] > 1 {
+				return true
+			}
+			ren[ps[k]] = i.Name
+		}
+		// the literal must not assign its parameters, nor declare a local with an argument's name
+		bad := false
+		ast.Inspect(lit.Body, func(m ast.Node) bool {
+			if as, ok := m.(*ast.AssignStmt); ok {
+				for _, l := range as.Lhs {
+					if i, ok := l.(*ast.Ident); ok {
+						if _, isP := ren[i.Name]; isP {
+							bad = true
+						}
+						for _, to := range ren {
+							if as.Tok == token.DEFINE && i.Name == to {
+								bad = true
+							}
+						}
+					}
+				}
+			}
+			return true
+		})
+		if bad {
+			return true
+		}
+		ast.Inspect(lit.Body, func(m ast.Node) bool {
+			if i, ok := m.(*ast.Ident); ok {
+				if to, ok := ren[i.Name]; ok {
+					i.Name = to
+				}
+			}
+			return true
+		})
+		lit.Type.Params = &ast.FieldList{}
+		g.Call.Args = nil
+		return true
+	})
+}
+
+// In a loop body: `if c { A }; R` where every path through A ends in `return` or `continue` is `if c { A } else { R }`
+// (then the tail `continue`s of A disappear: dropTailContinues).
+func jumpingIfToElse(fd *ast.FuncDecl) {
+	var jumps func(list []ast.Stmt) bool
+	jumps = func(list []ast.Stmt) bool {
+		if len(list) == 0 {
+			return false
+		}
+		switch y := list[len(list)-1].(type) {
+		case *ast.ReturnStmt:
+			return true
+		case *ast.BranchStmt:
+			return y.Tok == token.CONTINUE && y.Label == nil
+		case *ast.IfStmt:
+			eb, ok := y.Else.(*ast.BlockStmt)
+			return ok && jumps(y.Body.List) && jumps(eb.List)
+		case *ast.SelectStmt:
+			for _, cl := range y.Body.List {
+				if !jumps(cl.(*ast.CommClause).Body) {
+					return false
+				}
+			}
+			return len(y.Body.List) > 0
+		}
+		return false
+	}
+	hasContinue := func(n ast.Node) bool {
+		r := false
+		ast.Inspect(n, func(m ast.Node) bool {
+			switch y := m.(type) {
+			case *ast.ForStmt, *ast.RangeStmt, *ast.FuncLit:
+				return false
+			case *ast.BranchStmt:
+				if y.Tok == token.CONTINUE {
+					r = true
+				}
+			}
+			return true
+		})
+		return r
+	}
+	var doLoopBody func(list []ast.Stmt) []ast.Stmt
+	doLoopBody = func(list []ast.Stmt) []ast.Stmt {
+		for k, st := range list {
+			is, ok := st.(*ast.IfStmt)
+			if !ok || is.Else != nil || k == len(list)-1 {
+				continue
+			}
+			// only worth it (and only needed) when A contains a `continue`
+			if jumps(is.Body.List) && hasContinue(is.Body) {
+				is.Else = &ast.BlockStmt{List: doLoopBody(append([]ast.Stmt{}, list[k+1:]...))}
+				return append(append([]ast.Stmt{}, list[:k]...), is)
+			}
+		}
+		return list
+	}
+	ast.Inspect(fd, func(n ast.Node) bool {
+		switch y := n.(type) {
+		case *ast.ForStmt:
+			y.Body.List = doLoopBody(y.Body.List)
+		case *ast.RangeStmt:
+			y.Body.List = doLoopBody(y.Body.List)
+		}
+		return true
+	})
+}
+
+// declarations of the file and of the other non-test files of its directory (freshly parsed)
+func packageDecls(path string) []ast.Decl {
+	files := []string{path}
+	if ents, err := os.ReadDir(filepath.Dir(path)); err == nil {
+		for _, e := range ents {
+			n := e.Name()
+			if strings.HasSuffix(n, ".go") && !strings.HasSuffix(n, "_test.go") && filepath.Join(filepath.Dir(path), n) != path {
+				files = append(files, filepath.Join(filepath.Dir(path), n))
+			}
+		}
+	}
+	out := []ast.Decl{}
+	for _, fp := range files {
+		out = append(out, parse(fp).Decls...)
+	}
+	return out
+}
+
+// Field names (x.f, T{f: …}) are no variables: marked, so that a renaming of variables leaves them alone.
+func protectNonVars(root ast.Node) {
+	ast.Inspect(root, func(n ast.Node) bool {
+		switch y := n.(type) {
+		case *ast.SelectorExpr:
+			if !strings.HasPrefix(y.Sel.Name, "\x00") {
+				y.Sel.Name = "\x00" + y.Sel.Name
+			}
+		case *ast.CompositeLit:
+			switch y.Type.(type) {
+			case *ast.MapType, *ast.ArrayType:
+				return true
+			}
+			for _, el := range y.Elts {
+				if kv, ok := el.(*ast.KeyValueExpr); ok {
+					if k, ok := kv.Key.(*ast.Ident); ok && !strings.HasPrefix(k.Name, "\x00") {
+						k.Name = "\x00" + k.Name
+					}
+				}
+			}
+		}
+		return true
+	})
+}
+
+// Expression helpers. An unexported package-level function `func h[…](p1 T1, …) R { return E }` whose result is no
+// function is an abbreviation: a call h(a1, …, an) anywhere in the file is E with ai for pi, when that evaluates
+// each ai exactly as often as the call does (pi is mentioned once in E, or ai is a name or a literal) and no name
+// of an argument is captured by a literal inside E. Applied to a fixpoint (helpers calling helpers); a helper that
+// reaches itself is left alone. `keep` names functions that are never treated as abbreviations.
+func expandExprMacros(f *ast.File, keep func(*ast.FuncDecl) bool) {
+	type macro struct {
+		params []string
+		body   string
+		tps    []string
+		sig    string          // func(p1 T1, …) R
+		inner  map[string]bool // parameter names of literals inside E
+	}
+	macros := map[string]*macro{}
+	for _, d := range f.Decls {
+		fd, ok := d.(*ast.FuncDecl)
+		if !ok || fd.Recv != nil || fd.Body == nil || fd.Name.IsExported() || len(fd.Body.List) != 1 || (keep != nil && keep(fd)) {
+			continue
+		}
+		r, ok := fd.Body.List[0].(*ast.ReturnStmt)
+		if !ok || len(r.Results) != 1 || fd.Type.Results == nil || len(fd.Type.Results.List) != 1 || len(fd.Type.Results.List[0].Names) > 0 {
+			continue
+		}
+		if _, isFn := fd.Type.Results.List[0].Type.(*ast.FuncType); isFn {
+			continue
+		}
+		m := &macro{body: src(r.Results[0]), tps: typeParams(fd), inner: map[string]bool{}}
+		{
+			ft := *fd.Type
+			ft.TypeParams = nil
+			m.sig = src(&ft)
+		}
+		good := true
+		if fd.Type.Params != nil {
+			for _, p := range fd.Type.Params.List {
+				if _, variadic := p.Type.(*ast.Ellipsis); variadic || len(p.Names) == 0 {
+					good = false
+				}
+				for _, n := range p.Names {
+					if n.Name == "_" {
+						good = false
+					}
+					m.params = append(m.params, n.Name)
+				}
+			}
+		}
+		ast.Inspect(r.Results[0], func(n ast.Node) bool {
+			if l, ok := n.(*ast.FuncLit); ok && l.Type.Params != nil {
+				for _, p := range l.Type.Params.List {
+					for _, nm := range p.Names {
+						m.inner[nm.Name] = true
+					}
+				}
+			}
+			return true
+		})
+		if good {
+			macros[fd.Name.Name] = m
+		}
+	}
+	if len(macros) == 0 {
+		return
+	}
+	expand := func(call *ast.CallExpr) ast.Expr {
+		var h *ast.Ident
+		var targs []ast.Expr
+		switch fx := call.Fun.(type) {
+		case *ast.Ident:
+			h = fx
+		case *ast.IndexExpr:
+			h, _ = fx.X.(*ast.Ident)
+			targs = []ast.Expr{fx.Index}
+		case *ast.IndexListExpr:
+			h, _ = fx.X.(*ast.Ident)
+			targs = fx.Indices
+		}
+		if h == nil {
+			return nil
+		}
+		m := macros[h.Name]
+		if m == nil || len(call.Args) != len(m.params) || call.Ellipsis.IsValid() {
+			return nil
+		}
+		e, err := parser.ParseExpr(m.body)
+		if err != nil {
+			return nil
+		}
+		// type parameters: explicit instantiation renames them; otherwise E must not mention them
+		tren := map[string]ast.Expr{}
+		if len(targs) > 0 {
+			if len(targs) > len(m.tps) {
+				return nil
+			}
+			for k, t := range targs {
+				tren[m.tps[k]] = t
+			}
+		}
+		isTP := map[string]bool{}
+		for _, t := range m.tps {
+			isTP[t] = true
+		}
+		count := map[string]int{}
+		bad := false
+		protectNonVars(e)
+		ast.Inspect(e, func(n ast.Node) bool {
+			if i, ok := n.(*ast.Ident); ok {
+				count[i.Name]++
+				if isTP[i.Name] && tren[i.Name] == nil {
+					bad = true
+				}
+			}
+			return true
+		})
+		sub := map[string]ast.Expr{}
+		for k, p := range m.params {
+			a := call.Args[k]
+			switch a.(type) {
+			case *ast.Ident, *ast.BasicLit:
+			default:
+				if count[p] > 1 {
+					bad = true
+				}
+			}
+			ast.Inspect(a, func(n ast.Node) bool {
+				if i, ok := n.(*ast.Ident); ok && m.inner[i.Name] {
+					bad = true
+				}
+				return true
+			})
+			sub[p] = a
+		}
+		if bad {
+			return nil
+		}
+		holder := &ast.ParenExpr{X: e}
+		mapExprs(holder, func(x ast.Expr) ast.Expr {
+			if i, ok := x.(*ast.Ident); ok {
+				if to, ok := sub[i.Name]; ok {
+					return to
+				}
+				if to, ok := tren[i.Name]; ok {
+					return to
+				}
+			}
+			return x
+		})
+		ast.Inspect(holder, func(n ast.Node) bool {
+			if i, ok := n.(*ast.Ident); ok && strings.HasPrefix(i.Name, "\x00") {
+				i.Name = i.Name[1:]
+			}
+			return true
+		})
+		return holder.X
+	}
+	anyChanged := false
+	for round := 0; round < 40; round++ {
+		changed := false
+		for _, d := range f.Decls {
+			fd, ok := d.(*ast.FuncDecl)
+			if !ok || fd.Body == nil {
+				continue
+			}
+			shadowed := declaredNames(fd)
+			mapExprs(fd.Body, func(x ast.Expr) ast.Expr {
+				if c, ok := x.(*ast.CallExpr); ok {
+					if shadowed[calleeName(c)] {
+						return x
+					}
+					if to := expand(c); to != nil {
+						changed = true
+						anyChanged = true
+						return to
+					}
+				}
+				return x
+			})
+		}
+		// bodies of the abbreviations themselves (helpers calling helpers)
+		for name, m := range macros {
+			e, err := parser.ParseExpr(m.body)
+			if err != nil {
+				continue
+			}
+			holder := &ast.ParenExpr{X: e}
+			selfRef := false
+			mapExprs(holder, func(x ast.Expr) ast.Expr {
+				if c, ok := x.(*ast.CallExpr); ok {
+					if i, ok := c.Fun.(*ast.Ident); ok && i.Name == name {
+						selfRef = true
+						return x
+					}
+					if to := expand(c); to != nil {
+						return to
+					}
+				}
+				return x
+			})
+			if selfRef {
+				delete(macros, name)
+				continue
+			}
+			m.body = src(holder.X)
+		}
+		if !changed {
+			break
+		}
+	}
+	// what is left of an abbreviation outside call position is a function value: `h` or `h[X, Y]` (type arguments that
+	// are plain names) is the literal `func(p1 T1, …) R { return E }`
+	funs := map[ast.Expr]bool{}
+	ast.Inspect(f, func(n ast.Node) bool {
+		if c, ok := n.(*ast.CallExpr); ok {
+			funs[c.Fun] = true
+		}
+		return true
+	})
+	for _, d := range f.Decls {
+		fd, ok := d.(*ast.FuncDecl)
+		if !ok || fd.Body == nil {
+			continue
+		}
+		shadowed := declaredNames(fd)
+		mapExprs(fd.Body, func(x ast.Expr) ast.Expr {
+			if funs[x] {
+				return x
+			}
+			var h *ast.Ident
+			var targs []ast.Expr
+			switch fx := x.(type) {
+			case *ast.Ident:
+				h = fx
+			case *ast.IndexExpr:
+				h, _ = fx.X.(*ast.Ident)
+				targs = []ast.Expr{fx.Index}
+			case *ast.IndexListExpr:
+				h, _ = fx.X.(*ast.Ident)
+				targs = fx.Indices
+			}
+			if h == nil || shadowed[h.Name] {
+				return x
+			}
+			m := macros[h.Name]
+			if m == nil || len(targs) != len(m.tps) {
+				return x
+			}
+			tren := map[string]string{}
+			for k, t := range targs {
+				ti, ok := t.(*ast.Ident)
+				if !ok {
+					return x
+				}
+				tren[m.tps[k]] = ti.Name
+			}
+			lit, err := parser.ParseExpr(m.sig + " { return " + m.body + " }")
+			if err != nil {
+				return x
+			}
+			protectNonVars(lit)
+			ast.Inspect(lit, func(n ast.Node) bool {
+				if i, ok := n.(*ast.Ident); ok {
+					if strings.HasPrefix(i.Name, "\x00") {
+						i.Name = i.Name[1:]
+					} else if to, ok := tren[i.Name]; ok {
+						i.Name = to
+					}
+				}
+				return true
+			})
+			anyChanged = true
+			return lit
+		})
+	}
+	// positions of spliced nodes are foreign: print and parse again (only when something was expanded, so that the
+	// positions of an untouched file stay the file's own)
+	if !anyChanged {
+		return
+	}
+	var sb strings.Builder
+	if err := format.Node(&sb, token.NewFileSet(), f); err == nil {
+		if nf, err := parser.ParseFile(fset, fset.Position(f.Pos()).Filename+" (rewritten)", sb.String(), parser.ParseComments); err == nil {
+			*f = *nf
+		}
+	}
+}
+
+func calleeName(c *ast.CallExpr) string {
+	switch fx := c.Fun.(type) {
+	case *ast.Ident:
+		return fx.Name
+	case *ast.IndexExpr:
+		if i, ok := fx.X.(*ast.Ident); ok {
+			return i.Name
+		}
+	case *ast.IndexListExpr:
+		if i, ok := fx.X.(*ast.Ident); ok {
+			return i.Name
+		}
+	}
+	return ""
+}
+
+// every name a function declares itself (receiver, parameters, results, locals, parameters of its literals)
+func declaredNames(fd *ast.FuncDecl) map[string]bool {
+	out := map[string]bool{}
+	fields := func(fl *ast.FieldList) {
+		if fl != nil {
+			for _, f := range fl.List {
+				for _, n := range f.Names {
+					out[n.Name] = true
+				}
+			}
+		}
+	}
+	fields(fd.Recv)
+	fields(fd.Type.Params)
+	fields(fd.Type.Results)
+	ast.Inspect(fd, func(n ast.Node) bool {
+		switch y := n.(type) {
+		case *ast.FuncLit:
+			fields(y.Type.Params)
+			fields(y.Type.Results)
+		case *ast.AssignStmt:
+			if y.Tok == token.DEFINE {
+				for _, l := range y.Lhs {
+					if i, ok := l.(*ast.Ident); ok {
+						out[i.Name] = true
+					}
+				}
+			}
+		case *ast.ValueSpec:
+			for _, i := range y.Names {
+				out[i.Name] = true
+			}
+		case *ast.RangeStmt:
+			if y.Tok == token.DEFINE {
+				for _, kv := range []ast.Expr{y.Key, y.Value} {
+					if i, ok := kv.(*ast.Ident); ok {
+						out[i.Name] = true
+					}
+				}
+			}
+		}
+		return true
+	})
+	return out
+}
+
+// `if C { x := make(chan T, E); S…; return … }; y := make(chan T, E); REST` allocates exactly one channel on either
+// path (make has no effect besides, C is evaluated before both): it is `y := make(chan T, E); if C { S…[y for x] };
+// REST`. C and S must not mention y, E must be built from names that the guard does not assign.
+func hoistSharedMake(fd *ast.FuncDecl) {
+	list := fd.Body.List
+	for k := 0; k+1 < len(list); k++ {
+		is, ok := list[k].(*ast.IfStmt)
+		if !ok || is.Init != nil || is.Else != nil || len(is.Body.List) < 2 {
+			continue
+		}
+		if _, ok := is.Body.List[len(is.Body.List)-1].(*ast.ReturnStmt); !ok {
+			continue
+		}
+		isMake := func(st ast.Stmt) (string, string, bool) {
+			as, ok := st.(*ast.AssignStmt)
+			if !ok || as.Tok != token.DEFINE || len(as.Lhs) != 1 || len(as.Rhs) != 1 {
+				return "", "", false
+			}
+			i, ok := as.Lhs[0].(*ast.Ident)
+			c, ok2 := as.Rhs[0].(*ast.CallExpr)
+			if !ok || !ok2 || src(c.Fun) != "make" || len(c.Args) == 0 {
+				return "", "", false
+			}
+			if _, isChan := c.Args[0].(*ast.ChanType); !isChan {
+				return "", "", false
+			}
+			return i.Name, src(c), true
+		}
+		x, mx, ok1 := isMake(is.Body.List[0])
+		y, my, ok2 := isMake(list[k+1])
+		if !ok1 || !ok2 || mx != my {
+			continue
+		}
+		bad := false
+		ast.Inspect(is, func(n ast.Node) bool {
+			switch v := n.(type) {
+			case *ast.Ident:
+				if v.Name == y && x != y {
+					bad = true
+				}
+			case *ast.AssignStmt:
+				if v != is.Body.List[0] {
+					for _, l := range v.Lhs {
+						if i, ok := l.(*ast.Ident); ok && strings.Contains(" "+my+" ", i.Name) {
+							bad = true // conservatively: an assigned name that occurs in the make expression
+						}
+					}
+				}
+			case *ast.IncDecStmt:
+				bad = true
+			case *ast.FuncLit:
+				bad = true
+			}
+			return true
+		})
+		if bad {
+			continue
+		}
+		rest := &ast.BlockStmt{List: is.Body.List[1:]}
+		ast.Inspect(rest, func(n ast.Node) bool {
+			if i, ok := n.(*ast.Ident); ok && i.Name == x {
+				i.Name = y
+			}
+			return true
+		})
+		is.Body.List = rest.List
+		list[k], list[k+1] = list[k+1], is
+		k++
+	}
 }
